@@ -198,6 +198,7 @@ type runner struct {
 	evals     int
 	refLog    []simos.Op
 	refCalls  int
+	lastRes   retriever.DumpResult // what the most recent Dump call returned
 }
 
 func (r *runner) opts(resume bool) retriever.DumpOptions {
@@ -302,6 +303,15 @@ func (r *runner) afterResume(src stor.DBSpec, err error, pre map[string]string, 
 		if d := stor.CheckDumpRef(r.out, src, 3, allowCk, r.ref); d != "" {
 			return fmt.Sprintf("%s: resume returned nil but the directory is not a complete dump equivalent to an uninterrupted one: %s", tag, d)
 		}
+		// what the completing call reports is the dump it completed, not only the part it wrote itself
+		var nn, ne int64
+		for _, g := range src.Graphs {
+			nn += int64(len(g.Nodes))
+			ne += int64(len(g.Rels))
+		}
+		if r.lastRes.NodeCount != nn || r.lastRes.EdgeCount != ne {
+			return fmt.Sprintf("%s: resume returned nil with DumpResult{NodeCount: %d, EdgeCount: %d} for a dump of %d nodes and %d relationships", tag, r.lastRes.NodeCount, r.lastRes.EdgeCount, nn, ne)
+		}
 		r.counters["resume_completed"]++
 		return ""
 	}
@@ -338,7 +348,7 @@ func (r *runner) dump(ctx context.Context, src *simdb.DB, targets []retriever.Gr
 		cctx, cancel := context.WithCancel(context.Background())
 		r.cancel = cancel
 		defer cancel()
-		_, err = retriever.Dump(cctx, src, driver, targets, o)
+		r.lastRes, err = retriever.Dump(cctx, src, driver, targets, o)
 	}); c != "" {
 		// the simulator's own verdict (hang, leak, panic, lost control) outranks the call's result
 		if r.simClass == "" {
